@@ -698,7 +698,28 @@ def explore_task(args):
     except Exception:  # noqa
         import traceback
         res["error"] = traceback.format_exc()[-1500:]
+    _release_classes()
     return res
+
+
+def _release_classes():
+    """the classes declared afresh for every schedule stay referenced from typedpy's class-keyed caches: drop them
+    (worker processes are reused for many chunks)"""
+    import gc
+    try:
+        import functools
+        for mname, mod in list(sys.modules.items()):
+            if mod is None or not mname.startswith("typedpy."):
+                continue
+            for v in list(vars(mod).values()):
+                if isinstance(v, functools._lru_cache_wrapper):
+                    v.cache_clear()
+        _m = sys.modules.get("typedpy.serialization.mappers")      # (the package also exports an enum called `mappers`)
+        if isinstance(getattr(_m, "aggregated_mapper_by_class", None), dict):
+            _m.aggregated_mapper_by_class.clear()
+    except Exception:  # noqa
+        pass
+    gc.collect()
 
 
 def run_stream(tier, rnd, nproc, chunk=350):
@@ -1295,7 +1316,10 @@ def shared_write_census(ca):
                 except Exception:  # noqa
                     pass
         after = _snapshot(classes)
+        mods_before = {k[1] for k in before if k[0] == "global"}
         for k in set(before) | set(after):
+            if k[0] == "global" and k[1] not in mods_before:
+                continue        # a typedpy module imported for the first time during an operation
             if before.get(k) != after.get(k):
                 changed_all.add(k)
     unknown = sorted(k for k in changed_all
